@@ -23,10 +23,32 @@ def default_policy(ex, fi: FuncInfo, depth: int) -> bool:
     return depth < 6
 
 
+_PINNED = None
+
+
+def _is_new_function(fi: FuncInfo) -> bool:
+    """a function that did not exist on the pinned tree the rules were written against (spec/pinned_functions.json): e.g. a helper
+    extracted by a refactoring.  No rule can name it, so it is interpreted as part of its caller rather than left as an opaque call."""
+    global _PINNED
+    if _PINNED is None:
+        import json
+        import os
+
+        try:
+            _PINNED = set(json.load(open(os.path.join(os.path.dirname(os.path.dirname(os.path.abspath(__file__))), "spec", "pinned_functions.json")))["functions"])
+        except (OSError, ValueError, KeyError):
+            _PINNED = set()
+            return False
+    if not _PINNED or fi.name == "<lambda>" or fi.parent is not None:
+        return False
+    return fi.qualname not in _PINNED
+
+
 class Exec:
     def __init__(self, prog: Program, policy=None, registered: bool = True, max_unroll: int = 4096, max_events: int = 400000):
         self.prog = prog
-        self.policy = policy or default_policy
+        base_policy = policy or default_policy
+        self.policy = lambda ex, fi, depth, _p=base_policy: _p(ex, fi, depth) or (depth < 8 and _is_new_function(fi))
         self.trace: List[Event] = []
         self.loops: Dict[int, LoopRec] = {}
         self.frames: List[FrameInfo] = []
@@ -198,6 +220,7 @@ class Exec:
             dead = False
         except PathDead:
             ret, st2, dead = None, None, True
+        self.last_heap = st2.heap if st2 is not None else {}
         return Result(self, fi, ret, st2, start, len(self.trace), dead, bind)
 
     def run_driver(self, module: ModuleInfo, src: str, args: Optional[Dict[str, Term]] = None, setup=None) -> "Result":
